@@ -3,6 +3,7 @@ use std::collections::{BTreeMap, HashSet};
 
 pub mod actions;
 pub mod docs;
+pub mod fsfault;
 pub mod hist;
 pub mod links;
 pub mod names;
@@ -35,6 +36,7 @@ pub fn get(id: &str) -> Option<Box<dyn Engine>> {
         "C05" => Some(Box::new(links::C05)),
         "C06" => Some(Box::new(links::C06)),
         "C04" => Some(Box::new(hist::C04)),
+        "C19" => Some(Box::new(fsfault::C19)),
         "C20" => Some(Box::new(hist::C20)),
         _ => None,
     }
